@@ -100,7 +100,10 @@ def viewpoint_pair(rng, shape, dyadic=0.0):
                 how = rng.random()
                 tw = first_coefficient_twin(r)
                 pw = permuted_twin(r)
-                if tw and how < 0.15:
+                if how > 0.55 and how < 0.7 and (all(a > 0 for a in r[0].values()) or all(a < 0 for a in r[0].values())):
+                    # the OPPOSITE half-space with the opposite bound: together the two viewpoints pin the expression to one value
+                    dst[part].append(({v: -a for v, a in r[0].items()}, -r[1]))
+                elif tw and how < 0.15:
                     dst[part].append(tw)
                 elif pw and how < 0.3:
                     dst[part].append(pw)
@@ -110,6 +113,16 @@ def viewpoint_pair(rng, shape, dyadic=0.0):
                     dst[part].append(twin)
                 else:
                     dst[part].append(r if how < 0.3 else (scaled(r, 2) if how < 0.55 else weakened(r, rng.randint(1, 2))))
+    # several rows stated word for word by BOTH viewpoints, each followed by rows of its own
+    if rng.random() < 0.25:
+        both = [v for v in d1["inv"] + d1["outv"] if v in d2["inv"] + d2["outv"]]
+        part = "g" if any(v in d1["outv"] or v in d2["outv"] for v in both) or rng.random() < 0.5 else "a"
+        allowed = [v for v in both if part == "g" or (v in d1["inv"] and v in d2["inv"])]
+        if allowed:
+            shared = [gen.rrow(rng, allowed, nmax=min(2, len(allowed))) for _ in range(rng.randint(2, 3))]
+            for d in (d1, d2):
+                own = list(d[part])
+                d[part] = [(dict(co), c) for co, c in shared] + own
     # one viewpoint assumes what the other guarantees, word for word (listed first, last or anywhere)
     for src, dst in ((d1, d2), (d2, d1)):
         cands = [r for r in src["a"] if set(r[0]) <= set(dst["inv"]) | set(dst["outv"])]
